@@ -17,9 +17,12 @@ PATHS = ["Packages", ".", "repo", "src repo", "images/boot.iso", "a/b/c", "ünï
 
 def gen_content(rng, max_top=3, max_children=3, src=None, float_ts=False):
     rel = {"name": pick(rng, TI_NAMES), "short": pick(rng, TI_SHORTS), "version": pick(rng, TI_VERSIONS), "is_layered": rng.random() < 0.3}
+    if rng.random() < 0.12:
+        # a release whose name already ends with its version ("openSUSE Leap 15.1", version "15.1")
+        rel["name"] = "%s %s" % (rel["name"], rel["version"])
     bp = {"name": pick(rng, TI_NAMES), "short": pick(rng, TI_SHORTS), "version": pick(rng, ["7", "20", "Rawhide", "8.1"])}
     arch = "src" if (src if src is not None else rng.random() < 0.2) else pick(rng, pools.ARCHES)
-    ts = rng.choice([1, 123456, 1410855216, 2 ** 33 + 1, -1, -1, -86400])
+    ts = pools.anyint(rng, [1, 123456, 1410855216, 2 ** 33 + 1, -1, -1, -86400], big=0.08)
     if float_ts:
         ts = ts + rng.choice([0.0, 0.25, 0.5, 0.999])
         if int(ts) == 0:
@@ -72,7 +75,7 @@ def gen_content(rng, max_top=3, max_children=3, src=None, float_ts=False):
         K["media"] = {"discnum": rng.randint(1, tot), "totaldiscs": tot}
     for _ in range(rng.randint(0, 4)):
         t = pick(rng, ["md5", "sha1", "sha256", "sha512"])
-        K["checksums"]["%s/%s" % (pick(rng, ["images", "repodata", "LiveOS", "Images/Sub", "x86_64/os/images", "tree/os"]), pick(rng, IMAGE_NAMES + ["repomd.xml"]))] = [t, hexstr(rng, {"md5": 32, "sha1": 40, "sha256": 64, "sha512": 128}[t])]
+        K["checksums"]["%s/%s" % (pick(rng, ["images", "repodata", "LiveOS", "Images/Sub", "x86_64/os/images", "tree/os", ".hidden", "-opt", "+plus", "~tilde", "0"]), pick(rng, IMAGE_NAMES + ["repomd.xml"]))] = [t, hexstr(rng, {"md5": 32, "sha1": 40, "sha256": 64, "sha512": 128}[t])]
     # entries planted directly in the public table (not through Checksums.add, which normalises): relative but
     # not in normal form - legal option names, must come back verbatim
     K["raw_checksums"] = {}
@@ -272,8 +275,8 @@ def gen_discinfo(rng):
 
 DI_POISON = [
     ("timestamp", [None, 0.0, 123, "1.0", 0]),
-    ("description", [None, "", 5]),
-    ("arch", [None, "", 5]),
+    ("description", [None, "", 5, " ", "\t", "a\nb", "a\r\nb", " padded "]),
+    ("arch", [None, "", 5, " ", "x86_64\n", "a\nb"]),
     ("disc_numbers", [None, [], "ALL", (1, 2)]),
 ]
 
